@@ -855,6 +855,26 @@ func mutate(r *rand.Rand, t *gt, nv int) *gt {
 	}
 	switch t.k {
 	case 'C':
+		if t.isCons() && r.Intn(4) == 0 {
+			// the same text as a list of characters <-> a list of codes (different terms, similar encodings)
+			es, tail := t.spine()
+			if tail.isNil() {
+				if s, ok := charsText(es); ok {
+					var cs []*gt
+					for _, c := range s {
+						cs = append(cs, gI(int64(c)))
+					}
+					return gList(cs, nil)
+				}
+				if s, ok := codesText(es); ok {
+					var cs []*gt
+					for _, c := range s {
+						cs = append(cs, gA(string(c)))
+					}
+					return gList(cs, nil)
+				}
+			}
+		}
 		switch r.Intn(6) {
 		case 0: // other functor, same args
 			return &gt{k: 'C', s: pick(r, c08Functors), args: t.args}
